@@ -1069,3 +1069,31 @@ def pf_str(pf):
     if c == 1:
         return ' * '.join(fs) if len(fs) == 1 else '(' + ' * '.join(fs) + ')'
     return '(' + ' * '.join([str(c)] + fs) + ')'
+
+
+def walk_deep(node, unit, depth=2, _seen=None):
+    """walk(node), continued through the bodies of the repository's own functions that are called
+    inside it (helpers extracted from the anchored function are analysed as part of it)."""
+    if _seen is None:
+        _seen = set()
+    for x in walk(node):
+        yield x
+        if depth > 0 and x.get('kind') in ('CallExpr', 'CXXMemberCallExpr', 'CXXOperatorCallExpr'):
+            d = callee_decl(x, unit)
+            if d is None:
+                continue
+            b = body_of(d)
+            if b is None:
+                mn = d.get('mangledName')
+                for f in unit.functions:
+                    if mn and f.get('mangledName') == mn and body_of(f) is not None:
+                        d, b = f, body_of(f)
+                        break
+            if b is None or id(b) in _seen:
+                continue
+            f_ = d.get('_file') or ''
+            if '/usr/' in f_ or 'include/c++' in f_:
+                continue
+            _seen.add(id(b))
+            for y in walk_deep(b, unit, depth - 1, _seen):
+                yield y
